@@ -147,6 +147,14 @@ func (m *AppPlacementManager) PlaceApplication(app *objects.Application) error {
 				zap.String("application", app.ApplicationID))
 			break
 		}
+		// the recovery queue is reserved for forced applications: a rule can never place another application in it
+		if common.IsRecoveryQueue(queueName) {
+			log.Log(log.SchedApplication).Debug("Rule returned the recovery queue for a non forced application",
+				zap.String("ruleName", checkRule.getName()),
+				zap.String("application", app.ApplicationID))
+			queueName = ""
+			continue
+		}
 		// queueName returned make sure ACL allows access and set the queueName in the app
 		queue := m.queueFn(queueName)
 		// walk up the tree if the queue does not exist
